@@ -375,3 +375,142 @@ func marshalHistories(c *explore.Ctx) {
 		c.Case(map[string]any{"calls": desc()})
 	}
 }
+
+// ---- enum fields of wide integer kinds: enums are 32-bit on the wire; a value that does not fit is refused, not truncated
+
+type enumWide struct {
+	E64 int64 `thrift:"1,enum"`
+	EI  int   `thrift:"2,enum"`
+	E32 int32 `thrift:"3,enum"`
+	E8  int8  `thrift:"4,enum"`
+}
+
+var enumValues = []int64{0, 1, -1, 63, 1<<31 - 1, -1 << 31, 1 << 31, -1<<31 - 1, 1 << 32, 1<<32 + 5, 1<<63 - 1, -1 << 63}
+
+func enumRange(c *explore.Ctx) {
+	p := Protocols[c.Choose(len(Protocols))]
+	field := c.Choose(2)
+	x := enumValues[c.Choose(len(enumValues))]
+	v := enumWide{E32: 7, E8: -3}
+	if field == 0 {
+		v.E64 = x
+	} else {
+		v.EI = int(x)
+	}
+	desc := fmt.Sprintf("enum field %d (kind %s) = %d over %s", field+1, []string{"int64", "int"}[field], x, p.Name)
+	var b []byte
+	var err error
+	var out enumWide
+	if pv, ps := explore.Catch(func() {
+		if b, err = thrift.Marshal(p.P, v); err == nil {
+			err = thrift.Unmarshal(p.P, b, &out)
+		}
+	}); pv != nil {
+		c.Fail("enum:panic:"+ps, "round trip panics: %v for %s", pv, desc)
+		return
+	}
+	fits := x >= -1<<31 && x <= 1<<31-1
+	switch {
+	case err != nil && fits:
+		c.Fail("enum:error", "round trip fails: %v for %s", err, desc)
+	case err == nil && out != v:
+		c.Fail("enum:value-differs", "Unmarshal(Marshal(v)) = %+v, want %+v (no error reported) for %s", out, v, desc)
+	}
+	c.NontrivialStr("enum", p.Name, fmt.Sprint(field, x))
+	c.Outcome(fmt.Sprintf("fits=%v err=%v", fits, err != nil))
+	c.Case(map[string]any{"protocol": p.Name, "field": field, "value": x, "error": fmt.Sprint(err)})
+}
+
+// ---- unions as map values and list elements: the union interface points at the member of its own copy
+
+type unionHolder struct {
+	M map[string]unionV `thrift:"1"`
+	L []unionV          `thrift:"2"`
+	P map[int32]*unionV `thrift:"3"`
+}
+
+func mkUnion(member int) unionV {
+	var v unionV
+	switch member {
+	case 0:
+		a := true
+		v.A, v.F = a, &a
+	case 1:
+		b := int32(42)
+		v.B, v.F = b, &b
+	case 2:
+		s := "x"
+		v.C, v.F = s, &s
+	}
+	return v
+}
+
+func unionMember(u unionV) (int, string) {
+	switch f := u.F.(type) {
+	case *bool:
+		return 0, fmt.Sprint(*f)
+	case *int32:
+		return 1, fmt.Sprint(*f)
+	case *string:
+		return 2, *f
+	}
+	return 3, ""
+}
+
+func unionContainers(c *explore.Ctx) {
+	p := Protocols[c.Choose(len(Protocols))]
+	m1, m2 := c.Choose(3), c.Choose(3)
+	place := c.Choose(3)
+	var v unionHolder
+	u1, u2 := mkUnion(m1), mkUnion(m2)
+	switch place {
+	case 0:
+		v.M = map[string]unionV{"a": u1, "b": u2}
+	case 1:
+		v.L = []unionV{u1, u2}
+	case 2:
+		v.P = map[int32]*unionV{1: &u1, 2: &u2}
+	}
+	desc := fmt.Sprintf("unions selecting members %d and %d as %s over %s", m1, m2, []string{"map values", "list elements", "map values behind pointers"}[place], p.Name)
+	var out unionHolder
+	var err error
+	if pv, ps := explore.Catch(func() {
+		var b []byte
+		if b, err = thrift.Marshal(p.P, v); err == nil {
+			err = thrift.Unmarshal(p.P, b, &out)
+		}
+	}); pv != nil {
+		c.Fail("union-container:panic:"+ps, "round trip panics: %v for %s", pv, desc)
+		return
+	}
+	if err != nil {
+		c.Fail("union-container:error", "round trip fails: %v for %s", err, desc)
+		return
+	}
+	var got []unionV
+	switch place {
+	case 0:
+		got = []unionV{out.M["a"], out.M["b"]}
+	case 1:
+		got = out.L
+	case 2:
+		if out.P[1] != nil && out.P[2] != nil {
+			got = []unionV{*out.P[1], *out.P[2]}
+		}
+	}
+	if len(got) != 2 {
+		c.Fail("union-container:count", "the %s come back as %d elements for %s", []string{"map values", "list elements", "map values"}[place], len(got), desc)
+	} else {
+		for i, w := range []unionV{u1, u2} {
+			gm, gv := unionMember(got[i])
+			wm, wv := unionMember(w)
+			if gm != wm || gv != wv || got[i].A != w.A || got[i].B != w.B || got[i].C != w.C {
+				c.Fail("union-container:member-differs", "element %d comes back selecting member %d holding %q (A=%v B=%d C=%q), want member %d holding %q, for %s", i, gm, gv, got[i].A, got[i].B, got[i].C, wm, wv, desc)
+				break
+			}
+		}
+	}
+	c.NontrivialStr("union-container", p.Name, fmt.Sprint(m1, m2, place))
+	c.Outcome(fmt.Sprintf("%s place=%d", p.Name, place))
+	c.Case(map[string]any{"protocol": p.Name, "members": []int{m1, m2}, "place": place})
+}
